@@ -14,7 +14,10 @@
     [honours g E] is the getter's documented contract; [representable E] says that every edge
     time is one an int64 nanosecond count can express (between Go's zero time and year 3000). *)
 From Coq Require Import List NArith ZArith Bool Sorted.
-From ApiFu Require Import Base.Sexp TimeConn.TimeModel TimeConn.TimeSpec TimeConn.TimeProofs.
+From ApiFu Require Import Base.Sexp TimeConn.TimeModel TimeConn.TimeSpec TimeConn.TimeProofs
+  TimeConn.TimeErrModel TimeConn.TimeErrProofs TimeConn.TimeCursorCodec TimeConn.TimeCursorCodecProofs
+  TimeConn.GoTimeModel TimeConn.GoTimeProofs TimeConn.TimeCostProofs.
+From ApiFu Require Cost.CostModel.
 Import ListNotations.
 Open Scope Z_scope.
 
@@ -146,6 +149,233 @@ Theorem C16_tiebreak_by_id_needed :
     fst (conn current g all_sync true a) = OPage es info /\ es <> TimeRef E a.
 Proof. exact tiebreak_by_id_needed. Qed.
 
+(** ** Stage B: failing getter calls, totalCount, mixed hand-overs, the order of resolution
+
+    [xconn V F g ps s tc a] (TimeConn/TimeErrModel.v) transcribes the same Go code with the
+    getter's error result, [join]'s error path and [totalCount] included.  [ps i] now also says
+    whether the i-th getter call fails ([Err id]), and whether it hands the failure over
+    synchronously or through its promise; [s] says which of pageInfo / totalCount the request
+    selects, [tc] is what the application's ResolveTotalCount answers.  The result is the outcome
+    (argument error / field null with an error / crash / page with page info and total count), the
+    range queries actually issued, and the number of ResolveTotalCount calls.  [F = true]: the
+    fourth and fifth repair (typed nil error values, answers that are not slices) are present.
+    [hand ps i = xp (ps i)] forgets the errors, [with_total] adds totalCount to an outcome of the
+    error-free transcription [conn].  [no_bad ps]: no call answers with a value that is neither nil
+    nor a slice ([BadValue]; those answers have their own theorems at the end of this section). *)
+
+(** As long as no issued call fails, the connection with errors and totalCount IS the error-free
+    transcription (so every theorem above carries over to it, for every mixture of synchronous and
+    promised results), with totalCount = the application's answer. *)
+Theorem C16_time_no_failure_is_conn : forall V g ps s tc a, no_bad ps ->
+  winner ps (range_queries V (cur_of (a_after a)) (cur_of (a_before a)) (a_from a) (a_to a) (limit_of a)) = None ->
+  xconn V true g ps s tc a = with_total s tc (conn V g (hand ps) (want_info s) a).
+Proof. exact xconn_no_failure. Qed.
+
+(** An error from any issued range query fails the field with THAT error — never a partial page,
+    whatever the other queries returned, synchronously or through promises: the field is null with
+    the error [winner] names and only the queries up to a synchronous failure were issued.  (In the
+    lazy first/last = 0 path a failing totalCount may be reported beside it.) *)
+Theorem C16_time_getter_error_fails_field : forall V g ps s tc a id n, no_bad ps ->
+  arg_error a = false -> fetches s a = true ->
+  winner ps (range_queries V (cur_of (a_after a)) (cur_of (a_before a)) (a_from a) (a_to a) (limit_of a)) = Some (id, n) ->
+  exists more tcn,
+    xconn V true g ps s tc a
+    = (XFieldError (EGetter id :: more),
+       firstn n (range_queries V (cur_of (a_after a)) (cur_of (a_before a)) (a_from a) (a_to a) (limit_of a)), tcn)
+    /\ more = (if lazy_of a then total_err_of s tc else [])
+    /\ (lazy_of a = false -> tcn = Some O).
+Proof. exact xconn_failure. Qed.
+
+(** Which error wins when several calls fail: an error some ISSUED call really raised; the first
+    synchronous failure in issue order if there is one (nothing is issued after it; it beats a
+    failing promise obtained earlier), otherwise the first failing promise in issue order. *)
+Theorem C16_time_winner_sound : forall ps qs id n,
+  winner ps qs = Some (id, n) ->
+  (n <= length qs)%nat /\
+  exists k, (k < n)%nat /\ call_fails (ps k) = Some id /\
+    ((by_promise (xp (ps k)) = false /\ n = S k /\ forall j, (j < k)%nat -> fails_sync (ps j) = None)
+     \/ (by_promise (xp (ps k)) = true /\ n = length qs
+         /\ (forall j, (j < n)%nat -> fails_sync (ps j) = None)
+         /\ forall j, (j < k)%nat -> fails_promise (ps j) = None)).
+Proof. exact winner_sound. Qed.
+
+(** ... and some error wins as soon as one of the calls fails. *)
+Theorem C16_time_winner_complete : forall ps qs,
+  winner ps qs = None -> forall j, (j < length qs)%nat -> call_fails (ps j) = None.
+Proof. exact winner_complete. Qed.
+
+(** No partial page: a page is returned only if none of the issued calls failed. *)
+Theorem C16_time_page_means_no_failure : forall g ps s tc a es info total issued tcn, no_bad ps ->
+  xconn current true g ps s tc a = (XPage es info total, issued, tcn) ->
+  forall j, (j < length issued)%nat -> call_fails (ps j) = None.
+Proof. exact xconn_page_no_failure. Qed.
+
+(** The full result with totalCount: for every honouring getter whose calls do not fail, however
+    each call hands its result over (any mixture of synchronous slices, promises, nil, typed nil
+    error values), the page is the reference page, totalCount is the application's answer obtained
+    by exactly one ResolveTotalCount call iff it is selected; a failing ResolveTotalCount nulls
+    the field with its error. *)
+Theorem C16_time_result_with_total : forall E g ps s tc a,
+  honours g E -> NoDup E -> representable E -> args_ok a = true ->
+  no_bad ps -> (forall j, call_fails (ps j) = None) ->
+  match total_err_of s tc with
+  | [] => exists info, fst (fst (xconn current true g ps s tc a)) = XPage (TimeRef E a) info (total_of s tc)
+                       /\ snd (xconn current true g ps s tc a) = Some (tc_calls_of s)
+  | errs => fst (fst (xconn current true g ps s tc a)) = XFieldError errs
+  end.
+Proof. exact xconn_result. Qed.
+
+(** The winner does not depend on the order in which the promises resolve: [join] reads the
+    promises in issue order; whatever the order of arrival [sched] (any list mentioning every
+    promise), it ends with the error of the first failing promise in issue order, or with all
+    values in issue order. *)
+Theorem C16_time_join_schedule_independent : forall prs sched,
+  (forall k, (k < length prs)%nat -> In k sched) ->
+  join_sched prs sched =
+  match first_perr prs with Some id => JErr id | None => JDone (pvals prs) end.
+Proof. exact join_schedule_independent. Qed.
+
+(** ... and the failure is reported as soon as the promises up to the failing one have resolved. *)
+Theorem C16_time_join_error_needs_only_prefix : forall prs sched k id,
+  nth_error prs k = Some (PErr id) -> first_perr (firstn k prs) = None ->
+  (forall j, (j <= k)%nat -> In j sched) ->
+  join_sched prs sched = JErr id.
+Proof. exact join_error_needs_only_prefix. Qed.
+
+(** An answer that is neither nil nor a slice (a string, a map, a promise that a promise resolved
+    to) from a call that is issued, no real error anywhere: the field is null with the library's
+    "non-slice" error, synchronously or through a promise. *)
+Theorem C16_time_non_slice_answer_is_an_error : forall V g ps s tc a k,
+  arg_error a = false -> fetches s a = true ->
+  (forall j, call_fails (ps j) = None) ->
+  (k < length (range_queries V (cur_of (a_after a)) (cur_of (a_before a)) (a_from a) (a_to a) (limit_of a)))%nat ->
+  xerr (ps k) = BadValue ->
+  exists more, fst (fst (xconn V true g ps s tc a)) = XFieldError (ENonSlice :: more).
+Proof. exact xconn_bad_value. Qed.
+
+(** Whatever the getter answers (errors, nil, typed nil, non-slices, promises of any of these) and
+    whatever ResolveTotalCount answers: the adapter never crashes. *)
+Theorem C16_time_no_crash_whatever_the_getter_answers : forall g ps s tc a,
+  fst (fst (xconn current true g ps s tc a)) <> XPanic.
+Proof. exact xconn_no_panic. Qed.
+
+(** The fifth repaired defect: before it such an answer crashed — through a promise inside
+    [join]'s goroutine, which ends the process. *)
+Theorem C16_non_slice_panic_before_fix :
+  exists g a,
+    args_ok a = true /\
+    fst (fst (xconn current false g bad_promise s_info (TCVal 0) a)) = XPanic /\
+    fst (fst (xconn current false g bad_sync s_info (TCVal 0) a)) = XPanic /\
+    fst (fst (xconn current true g bad_promise s_info (TCVal 0) a)) = XFieldError [ENonSlice] /\
+    fst (fst (xconn current true g bad_sync s_info (TCVal 0) a)) = XFieldError [ENonSlice].
+Proof. exact non_slice_panic_before_fix. Qed.
+
+(** The fourth repaired defect: a getter returning a typed nil error value synchronously failed
+    the field with a made-up error, while the same answer through a promise gave the page. *)
+Theorem C16_typed_nil_error_refuted_before_fix :
+  exists E g a,
+    honours g E /\ NoDup E /\ representable E /\ args_ok a = true /\
+    fst (fst (xconn current false g typed_nil_sync s_info (TCVal 0) a)) = XFieldError [EBogus] /\
+    (exists info, fst (fst (xconn current false g typed_nil_promise s_info (TCVal 0) a)) = XPage (TimeRef E a) (Some info) None) /\
+    (exists info, fst (fst (xconn current true g typed_nil_sync s_info (TCVal 0) a)) = XPage (TimeRef E a) (Some info) None).
+Proof. exact typed_nil_error_refuted_before_fix. Qed.
+
+(** ** Stage B: the cursors as the strings that travel
+
+    [tb_encode] / [tb_decode] (TimeConn/TimeCursorCodec.v) transcribe SerializeCursor /
+    DeserializeCursor for the struct TimeBasedCursor{Nano int64; Id string}, composed from C09's
+    model of base64url and msgpack (Relay/CursorCodec.v).  [wire_ok c]: the nanoseconds fit an
+    int64, the id is shorter than 2^32 bytes. *)
+
+(** Every cursor the server emits is accepted back and denotes the same (time, id) position. *)
+Theorem C16_cursor_codec_roundtrip : forall c, wire_ok c -> tb_decode (tb_encode c) = DCur c.
+Proof. exact tb_roundtrip. Qed.
+
+(** An emitted cursor is never the empty string (which the resolver reads as "no cursor"), so
+    feeding endCursor back as [after] always reaches the cursor itself. *)
+Theorem C16_cursor_string_as_argument : forall c,
+  tb_encode c <> [] /\ (wire_ok c -> arg_of_wire (Some (tb_encode c)) = Some (CCursor c)).
+Proof. exact cursor_string_as_argument. Qed.
+
+(** The walks of the statement with the cursor STRINGS the server emitted: first:n, then
+    after:<the endCursor string> while hasNextPage (and backwards likewise) visits every edge of
+    the window exactly once, in order. *)
+Theorem C16_time_walk_fwd_by_cursor_string : forall E g ps n from to fuel,
+  honours g E -> NoDup E -> representable E -> (forall e, In e E -> wire_ok e) ->
+  1 <= n -> (length E < fuel)%nat ->
+  walk_fwd_wire g fuel ps n from to None
+  = WDone (sort (filter (fun e => from_ok from e && to_ok to e) E)).
+Proof. exact time_walk_fwd_wire_stmt. Qed.
+
+Theorem C16_time_walk_bwd_by_cursor_string : forall E g ps n from to fuel,
+  honours g E -> NoDup E -> representable E -> (forall e, In e E -> wire_ok e) ->
+  1 <= n -> (length E < fuel)%nat ->
+  walk_bwd_wire g fuel ps n from to None
+  = WDone (sort (filter (fun e => from_ok from e && to_ok to e) E)).
+Proof. exact time_walk_bwd_wire_stmt. Qed.
+
+(** ** Stage B: [time.Time] is not an integer
+
+    [gtime] (TimeConn/GoTimeModel.v) is Go's time.Time as far as the connection code uses it:
+    int64 seconds since year 1, nanoseconds within the second, an optional monotonic reading, a
+    location; [inst t] is the instant it denotes (nanoseconds since the Unix epoch, unbounded).
+    [range_queries_t] transcribes TimeBasedRangeQueries with [Before] / [After] / [Equal] /
+    [Add] on such values; [new_cursor] / [cursor_time] are NewTimeBasedCursor / Time(). *)
+
+(** Comparisons compare instants: locations never matter, and a monotonic reading only when both
+    values carry one (no value that reaches the connection code does: DateTime arguments come from
+    UnmarshalText, cursor times from time.Unix). *)
+Theorem C16_time_comparisons_are_instants : forall t u, g_ok t -> g_ok u ->
+  g_before t u = (inst t <? inst u) /\ g_after t u = (inst u <? inst t) /\ g_equal t u = (inst t =? inst u).
+Proof. exact comparisons_are_instants. Qed.
+
+(** The integer transcription [range_queries] used by all theorems above is exactly what the
+    time.Time-level code computes — for EVERY atOrAfterTime / beforeTime a DateTime can express
+    (any year, any zone offset; also before Go's zero time and after the year 3000) and every
+    cursor. *)
+Theorem C16_range_queries_at_time_level_exact : forall after before from to limit,
+  opt_wf from -> opt_wf to -> opt_int64 after -> opt_int64 before ->
+  map inst_query (range_queries_t after before from to limit)
+  = range_queries current after before (option_map inst from) (option_map inst to) limit.
+Proof. exact range_queries_t_exact. Qed.
+
+(** The hypothesis "an edge is identified with its cursor" (edge time = cursor time) holds for
+    cursors built with NewTimeBasedCursor exactly when the edge's time is an int64 nanosecond count
+    (1677-09-21 .. 2262-04-11), whatever its location or monotonic reading ... *)
+Theorem C16_cursor_denotes_edge_time_iff_int64 : forall t id,
+  inst (cursor_time (new_cursor t id)) = inst t <-> int64 (inst t).
+Proof. exact cursor_time_roundtrip_iff. Qed.
+
+(** ... and fails outside: UnixNano wraps silently, an edge of the year 2300 gets a cursor of
+    1715 and sorts before an edge of 2020, an edge of 1600 after it (known limitation of the int64
+    cursor; the DateTime scalar itself accepts the years 0-9999). *)
+Theorem C16_cursor_order_refuted_outside_int64 :
+  g_wf t_1600 /\ g_wf t_2020 /\ g_wf t_2300 /\
+  inst t_1600 < inst t_2020 < inst t_2300 /\
+  cursor_ltb (new_cursor t_2300 []) (new_cursor t_2020 []) = true /\
+  cursor_ltb (new_cursor t_2020 []) (new_cursor t_1600 []) = true /\
+  inst (cursor_time (new_cursor t_2300 [])) <> inst t_2300.
+Proof. exact cursor_order_refuted_outside_int64. Qed.
+
+(** ** Stage B: cost (composition with C14's model of the connection cost functions)
+
+    A time-based connection is built with [Connection], so its cost function is
+    [defaultConnectionCost] and the cost of its [edges] field reads the edge count stored in the
+    context (Cost/CostModel.v: [default_connection_cost], [edges_cost], [connection_edge_count]).
+    The resolver cost is 1, and the multiplier announced for the edges is never exceeded by the
+    page the connection returns — which has exactly the length C14's model of the resolver's edge
+    count predicts for the number of matching edges. *)
+Theorem C16_time_cost_bounds_page : forall U (ctx : CostModel.kctx U) E g ps want_info a,
+  honours g E -> NoDup E -> representable E -> args_ok a = true ->
+  exists info m,
+    fst (conn current g ps want_info a) = OPage (TimeRef E a) info
+    /\ CostModel.fc_r (CostModel.default_connection_cost (argval_of (a_first a)) (argval_of (a_last a)) ctx) = 1
+    /\ edges_multiplier a ctx = Some m
+    /\ Z.of_nat (length (TimeRef E a)) <= m
+    /\ CostModel.connection_edge_count (argval_of (a_first a)) (argval_of (a_last a)) (Z.of_nat (length (matching E a)))
+       = Some (Z.of_nat (length (TimeRef E a))).
+Proof. exact time_cost_bounds_page. Qed.
+
 Print Assumptions C16_cursor_order_strict_total.
 Print Assumptions C16_reference_characterised.
 Print Assumptions C16_sorted_list_unique.
@@ -161,3 +391,24 @@ Print Assumptions C16_filters_refuted_before_fix.
 Print Assumptions C16_result_refuted_before_wrap_fix.
 Print Assumptions C16_panic_before_fix.
 Print Assumptions C16_tiebreak_by_id_needed.
+Print Assumptions C16_time_no_failure_is_conn.
+Print Assumptions C16_time_getter_error_fails_field.
+Print Assumptions C16_time_winner_sound.
+Print Assumptions C16_time_winner_complete.
+Print Assumptions C16_time_page_means_no_failure.
+Print Assumptions C16_time_result_with_total.
+Print Assumptions C16_time_join_schedule_independent.
+Print Assumptions C16_time_join_error_needs_only_prefix.
+Print Assumptions C16_typed_nil_error_refuted_before_fix.
+Print Assumptions C16_cursor_codec_roundtrip.
+Print Assumptions C16_cursor_string_as_argument.
+Print Assumptions C16_time_walk_fwd_by_cursor_string.
+Print Assumptions C16_time_walk_bwd_by_cursor_string.
+Print Assumptions C16_time_comparisons_are_instants.
+Print Assumptions C16_range_queries_at_time_level_exact.
+Print Assumptions C16_cursor_denotes_edge_time_iff_int64.
+Print Assumptions C16_cursor_order_refuted_outside_int64.
+Print Assumptions C16_time_cost_bounds_page.
+Print Assumptions C16_time_non_slice_answer_is_an_error.
+Print Assumptions C16_time_no_crash_whatever_the_getter_answers.
+Print Assumptions C16_non_slice_panic_before_fix.
